@@ -685,7 +685,6 @@ pub fn child_loader() -> i32 {
             (p, s.len())
         };
         let res = || unsafe { String::from_utf8_lossy(std::slice::from_raw_parts(graphql_loader::get_result_ptr(), graphql_loader::get_result_size())).into_owned() };
-        // a fresh thread per request: fresh CONFIG / TASKS thread-locals
         let text = text.to_string();
         let cfg = cfg.map(|s| s.to_string());
         // multi-file request: [[path, text], ...], the first one is the root
@@ -693,8 +692,12 @@ pub fn child_loader() -> i32 {
         let files: Vec<(String, String)> = pairs(&req["files"]);
         let other_files: Vec<(String, String)> = pairs(&req["other_files"]);
         let strategy_of_request = req["strategy"].as_u64().unwrap_or(0);
-        std::thread::spawn(move || {
-            if let Some(c) = cfg {
+        // One loader instance serves every request of this worker, as one wasm instance serves a whole build: the
+        // configuration is (re)loaded per request, tasks come and go, and whatever the loader keeps between calls
+        // (thread-locals) is carried from module to module.
+        (move || {
+            {
+                let c = cfg.unwrap_or_else(|| "schema: ./schema.graphql\n".to_string());
                 let (p, l) = abi(&c);
                 let ok = graphql_loader::load_config(p, l);
                 unsafe { graphql_loader::free_string(p, l) };
@@ -788,9 +791,7 @@ pub fn child_loader() -> i32 {
                 Ok((a, b, c)) => json!({"js": a, "other_js": b, "again_js": c}),
                 Err(e) => json!({"error": e}),
             }
-        })
-        .join()
-        .unwrap_or(json!({"error": "thread panicked"}))
+        })()
     })
 }
 
